@@ -113,7 +113,8 @@ def colour_items(rgba):
 
 
 def job_cell(job):
-    v, margin, layers, with_image, img_len, seed = job
+    v, margin, layers, with_image, img_len, seed = job[:6]
+    order = job[6] if len(job) > 6 else None         # seed of a shuffle of the setter calls (layer calls keep their order)
     prog = worker_prog()
     extra = worker_extra()
     res = {'evaluations': 0, 'obligations': 0, 'discharged': 0, 'failures': [], 'nontrivial': [], 'samples': [],
@@ -138,7 +139,7 @@ def job_cell(job):
         img = [T.var('img%d' % i, 8, below=95) for i in range(img_len)]
         cfg['image'] = [T.zext(8, 32, T.lut([0x20 + (k % 95) for k in range(256)], c, 8)) for c in img]
         cfg['ibg'] = sym_colour('ibg')
-    S.configure(I, prog, bp, cfg)
+    call_order = S.configure(I, prog, bp, cfg, order)
     mvals = [T.var('m%d' % i, 1) for i in range(n * n)]
     types = [rnd.choice([0, 2, 4, 6, 8, 10, 12, 14]) for _ in range(n * n)]
     cells = [T.bor(8, types[i], T.zext(1, 8, mvals[i])) for i in range(n * n)]
@@ -393,7 +394,8 @@ def job_cell(job):
     res['panic_obligations'] = len(pan)
     res['evaluations'] += res['obligations']
     res['discharged'] = res['obligations'] - len(fails) - len(unk)
-    name = 'V%02d margin=%d layers=%s image=%s' % (v + 1, margin, [(S.SHAPES[sh], 'colour' if c else 'default') for sh, c in layers], img_len if with_image else None)
+    name = 'V%02d margin=%d layers=%s image=%s%s' % (v + 1, margin, [(S.SHAPES[sh], 'colour' if c else 'default') for sh, c in layers], img_len if with_image else None,
+                                                     '' if order is None else ' setters called as %s' % ','.join(call_order))
     res['nontrivial'] = ['%s #%d' % (name, i) for i, (_, c) in enumerate(items) if type(c) is not int or True]
     res['samples'] = [{'cell': name, 'free': '%d module values, %d colour bytes, %d image characters' % (n * n, 4 * (2 + sum(1 for _, c in layers if c) + (1 if with_image else 0)), img_len if with_image else 0),
                        'string_items': len(flat), 'guarded_pieces': len(pieces), 'obligations': len(items), 'sent_to_solver': nsolv}]
@@ -421,7 +423,7 @@ def job_cell(job):
                 e_.setdefault(name_, rr.randrange(256) if not name_.startswith('m') else 0)
         req = ''
         for e_ in envs:
-            req, doc = native_svg(native, v, n, types, e_, cfg, layers, with_image, img_len, margin)
+            req, doc = native_svg(native, v, n, types, e_, cfg, layers, with_image, img_len, margin, call_order if order is not None else None)
             if doc is None:
                 confirmed, what = True, 'to_str panics: %s' % req[:80]
                 break
@@ -441,7 +443,7 @@ def job_cell(job):
             env[nm] = rnd.randrange(128 if nm.startswith('img') else 256)
     for i in range(img_len):
         env['img%d' % i] = rnd.choice(b'abcXYZ019/:._-&<"') - 0x20
-    req, doc = native_svg(native, v, n, types, env, cfg, layers, with_image, img_len, margin)
+    req, doc = native_svg(native, v, n, types, env, cfg, layers, with_image, img_len, margin, call_order if order is not None else None)
     mine = S.render_concrete(list(s[0]), env)
     res['validation']['cases'] += 1
     if doc != mine:
@@ -457,7 +459,7 @@ def job_cell(job):
     return res
 
 
-def native_svg(native, v, n, types, env, cfg, layers, with_image, img_len, margin):
+def native_svg(native, v, n, types, env, cfg, layers, with_image, img_len, margin, call_order=None):
     def col(name):
         return bytes(env.get('%s_%s' % (name, ch), 0) & 0xFF for ch in 'rgba').hex()
     mod = bytes(types[i] | (env.get('m%d' % i, 0) & 1) for i in range(n * n))
@@ -468,6 +470,8 @@ def native_svg(native, v, n, types, env, cfg, layers, with_image, img_len, margi
         img = bytes(0x20 + env.get('img%d' % i, 0x21) % 95 for i in range(img_len))
         parts.append('image=%s' % (img.hex() if img else '-'))
         parts.append('ibg=%s' % col('ibg'))
+    if call_order:
+        parts.append('order=' + ','.join(call_order))
     req = ' '.join(parts)
     ans = native.ask(req)
     if ans.startswith('PANIC') or ans == 'ABORT':
@@ -545,9 +549,12 @@ def main(argv):
         for m in range(0, 9):
             cells.append((0, m, [(rng.randrange(6), True)], False, 0))
     native_path = chk.ov.native(chk.features)
-    chk.jobs(job_cell, [c + (chk.seed,) for c in cells], extra={'native': native_path})
-    chk.cov['cells'] = len(cells)
-    chk.bounds += ['%d cells: versions %s, margins 0..8 and 95, 990 (coordinates of 3 and 4 digits), layer lists of length 0..3 over the 6 built-in shapes with and without per-layer colour, image strings of 3..8 ASCII characters' % (len(cells), [v + 1 for v in vs]),
+    jobs = [c + (chk.seed,) for c in cells]
+    # the same small cells with the setter calls shuffled: every setter but the layer calls only has a final value
+    jobs += [c + (chk.seed, chk.seed * 31 + k + 1) for k, c in enumerate(cells) if c[0] == 0 and c[1] < 50]
+    chk.jobs(job_cell, jobs, extra={'native': native_path})
+    chk.cov['cells'] = len(jobs)
+    chk.bounds += ['every V1 cell a second time with the setter calls in a seed-chosen order (layer calls keep their relative order)', '%d cells: versions %s, margins 0..8 and 95, 990 (coordinates of 3 and 4 digits), layer lists of length 0..3 over the 6 built-in shapes with and without per-layer colour, image strings of 3..8 ASCII characters' % (len(cells), [v + 1 for v in vs]),
                    'within a cell: every module value, every RGBA byte of every colour and every image character (7-bit) symbolic']
     chk.outside += ['non-ASCII image characters (never markup-significant)', 'custom Shape::Command callbacks', 'the decimal text of the image geometry numbers (C18 checks their values)',
                     'Color given as a string by the caller (inserted verbatim by design)']
